@@ -24,6 +24,8 @@ Two input families:
           followers' logs are rewritten by another leader in between, their replies are lost after
           the re-election, a node without the new commands is elected by the rest
   stable  lat with no faults and tiny delays; the bounded-progress clause is judged as well
+          (for the model it is a theorem under schedule predicates: HappyProofs/C11/Progress.lean,
+          ProgObs.lean, ProgAll.lean, ProgConvRun.lean, ProgJudgeOk.lean — see `partial_theorems` for what is not proved)
 """
 from __future__ import annotations
 
@@ -993,6 +995,34 @@ THEOREMS: list[str] = [
     "HappyModel.C11.leader_completeness_full_holds",
     "HappyModel.C11.state_machine_safety_full_holds",
     "HappyModel.C11.commit_monotone_full_holds",
+    # bounded progress under a stable leader (Progress.lean, ProgObs.lean, ProgAll.lean, ProgConvRun.lean, ProgJudgeOk.lean and their lemma files Prog*.lean)
+    "HappyModel.C11.stable_leader_commits",
+    "HappyModel.C11.stable_leader_commits_obs",
+    "HappyModel.C11.stable_all_apply",
+    "HappyModel.C11.stable_leader_commits_conv",
+    "HappyModel.C11.stable_leader_commits_conv_obs",
+    "HappyModel.C11.follower_ae",
+    "HappyModel.C11.prev0_not_refused",
+    "HappyModel.C11.nack_decrements",
+    "HappyModel.C11.miLen_step",
+    "HappyModel.C11.est_step",
+    "HappyModel.C11.sync_step",
+    "HappyModel.C11.accept_step",
+    "HappyModel.C11.ack_commits",
+    "HappyModel.C11.told_applies",
+    "HappyModel.C11.laOk_reach",
+    "HappyModel.C11.stableOk_settled",
+    "HappyModel.C11.stableOk_of_progress",
+    "HappyModel.C11.commit_le_leader",
+    "HappyModel.C11.stable_leader_commits_repaired",
+    "HappyModel.C11.stable_leader_commits_obs_repaired",
+    "HappyModel.C11.stableOk_settled_repaired",
+    "HappyModel.C11.stable_leader_commits_conv_repaired",
+    "HappyModel.C11.stableConv_example",
+    "HappyModel.C11.stableFair_example",
+    "HappyModel.C11.stableOk_example_hyps",
+    "HappyModel.C11.progress_needs_fairness",
+    "HappyModel.C11.progress_needs_stability",
     # the pinned code falsifies the property (concrete runs, by `decide`)
     "HappyModel.C11.election_safety_current_false",
     "HappyModel.C11.leader_completeness_current_false",
@@ -1000,7 +1030,25 @@ THEOREMS: list[str] = [
 ]
 C11.partial_theorems = {
     "stable_leader_commits":
-        "the bounded-progress clause is not a theorem: it is judged (Spec.stableOk) on the generated fault-free `stable` family only.",
+        "PROVED for the message-level model (every cluster size, every reachable start state, every interleaving of other actions): "
+        "under a stable leader L of term t, a command submitted to L is appended at k = len(log)+1, replicated on the followers Q, "
+        "committed and applied by L at k exactly once, its future resolved with k and that application's result, and no node ever applies "
+        "another command at k (stable_leader_commits, stable_leader_commits_obs); every in-sync follower handed the commit notice applies it "
+        "too (stable_all_apply); Spec.stableOk accepts the model's frames of every settled single-leader run (stableOk_settled) and of the "
+        "one-command stable run described by the schedule predicates alone (stableOk_of_progress). "
+        "Log back-off is covered by stable_leader_commits_conv / _conv_obs: no in-sync premise, the fairness predicate `convRun` follows the whole "
+        "AppendEntries conversation of each follower (refusal, next_index decrement, immediate retry, …) up to a successful acknowledgement. "
+        "NOT PROVED: (1) that this conversation is finite as a statement about runs (the two facts behind it are proved: `nack_decrements` — every refusal lowers "
+        "next_index[p] — and `prev0_not_refused`): `convRun` asks for it to be carried through within the run; the "
+        "one-round versions (stable_leader_commits, `ackedRun`) instead assume the followers of Q in sync at the submit (`inSync`, kept for ever after "
+        "under stability by `sync_step`); (2) the model has no clock: that 'delays well "
+        "below the election timeout on a fault-free network' yield the schedule predicates (`stableRun`: no term above t reaches L :: Q; `ackedRun`: the "
+        "entry is delivered to each p in Q and p's reply to L; `noRegressRun`: an older acknowledgement does not overtake a newer one — per-link FIFO "
+        "implies it, and without it the claim is false for n = 5; `toldRun`: a later AppendEntries with leader_commit >= k is delivered) is established "
+        "by the generated `stable` family of the harness and judged by Spec.stableOk on the implementation's transcript, not proved; "
+        "(3) many commands in one theorem: progress is proved per submitted command (any number of other submits may be interleaved), and "
+        "stableOk_settled turns 'every node's last_applied = len(L's log)' into the judge's clause, but the composition over all submits of a run is "
+        "stated only for one command (stableOk_of_progress).",
 }
 C11.hypotheses = [
     "election_safety, log_matching: Variant.keepVote (repair D1: _step_down keeps voted_for within a term)",
@@ -1008,6 +1056,23 @@ C11.hypotheses = [
     "proved over every action list via the history invariant HInv (seen/llogs/cands ghost lists, HappyProofs/C11/HInv.lean)",
     "submit_resolves_own_command: Variant.dropPending (repair D4) and FreshFutures (each submit call gets its own SimFuture)",
     "soup never shrinks on delivery: theorems also cover duplicated deliveries, which the real Network never produces",
+    "stable_leader_commits, stable_leader_commits_obs, stable_all_apply, stableOk_of_progress (bundle StableFair, all decidable Bools over the start state / action list): "
+    "Rep v; the start state is reachable (run from init over any prefix `pre`); `established s L t` (L is leader of term t); Q a duplicate-free non-empty list of "
+    "peers with quorum(n) <= |Q|+1; `inSync s L t p` for p in Q (p < n, p != L, term_p = t, p has a slot in L's match_index, L.log.take(next_index[p]-1) is a prefix of "
+    "p's log, and every AppendEntries of term t to p / successful acknowledgement of term t from p in the soup names a prefix of L's log that p holds); "
+    "`stableRun v t (L :: Q) s (submit :: as)` (in every state of the run the terms of L and of Q's nodes are <= t — nothing is assumed about other nodes); "
+    "`ackedRun … p` for p in Q (monitor over the action list: some step delivers to a live p an AppendEntries of term t from L with prev < k <= prev+len(entries), "
+    "and a later step delivers to a live L the message p sent in that step); `noRegressRun` (no step hands L a successful acknowledgement m < k of term t from a "
+    "node of Q whose match_index is already >= k); for stable_all_apply additionally `toldRun … p` (some step delivers to a live p an AppendEntries of term t from L "
+    "with k <= prev+len(entries) and leader_commit >= k). `progress_needs_fairness` / `progress_needs_stability` (decided 3-node runs) show the conclusion fails "
+    "when `ackedRun` resp. `stableRun` is dropped.",
+    "stable_leader_commits_conv, stable_leader_commits_conv_obs (bundle StableConv): as StableFair without `inSync` — only p < n, p != L for p in Q — and with "
+    "`convRun … p` in place of `ackedRun`: a step delivers to a live p an AppendEntries of term t from L with k <= prev+len(entries); then, alternately, the message "
+    "sent in the previous step of the conversation is delivered to its (live) destination, until the message delivered to L is a successful acknowledgement. "
+    "`stableConv_example` is a decided run with a real refusal/retry round in which `inSync` is false.",
+    "stableOk_settled: Rep v; `onlyLeader L frames` (no frame shows a leader other than L) and `settledAt` (in the final state every node's last_applied equals "
+    "len(L's log)); stableOk_of_progress derives `settledAt` from StableFair and toldRun for Q = all peers, with `onlyLeader` and 'L's final log has length k' "
+    "(nothing accepted after the command) as decidable hypotheses on the run.",
 ]
 C11.theorems = THEOREMS
 PROPERTY = C11()
